@@ -250,6 +250,17 @@ class Sym:
                         name = ("indirect", self.operand(env, c["indirect"]))
                     args = tuple(self.operand(env, a) for a in t["args"])
                     term = ("call", name, args, (b, t["ln"]))
+                    # `?` on a value whose variant is known (an inlined helper's Ok(..) / Err(..)): fold to the ControlFlow value
+                    if isinstance(name, str) and name.endswith("as std::ops::Try>::branch") and len(args) == 1 and args[0][0] == "agg" and args[0][1] == "adt" \
+                            and args[0][3] in ("Ok", "Some", "Err", "None") and t["target"] is not None:
+                        a0 = args[0]
+                        if a0[3] in ("Ok", "Some"):
+                            folded = ("agg", "adt", "std::ops::ControlFlow", "Continue", (a0[4][0],), 0)
+                        else:
+                            folded = ("agg", "adt", "std::ops::ControlFlow", "Break", (a0,), 1)
+                        self.assign(env, t["dest"], folded)
+                        b = t["target"]
+                        continue
                     # a private helper that did not exist in the reviewed tree (extracted by a refactoring) is looked through:
                     # the caller's paths fork over the helper's return paths, with the helper's conditions, calls and result substituted
                     if isinstance(name, str) and t["target"] is not None and getattr(self, "_inline_depth", 0) < 2:
@@ -272,7 +283,14 @@ class Sym:
                                     p2.calls = list(path.calls) + [subst_args(c, mapping) for c in sp.calls]
                                     p2.blocks = list(path.blocks)
                                     env2 = dict(env)
-                                    self.assign(env2, t["dest"], subst_args(sp.ret, mapping))
+                                    r2 = subst_args(sp.ret, mapping)
+                                    if r2[0] == "call" and isinstance(r2[1], str) and r2[1].endswith("::from_residual"):
+                                        # the helper propagated a failure with `?`: its result is the failing variant
+                                        if "FromResidual<std::option::Option" in r2[1]:
+                                            r2 = ("agg", "adt", "std::option::Option", "None", (), 0)
+                                        elif "FromResidual<std::result::Result" in r2[1]:
+                                            r2 = ("agg", "adt", "std::result::Result", "Err", (r2,), 1)
+                                    self.assign(env2, t["dest"], r2)
                                     walk(t["target"], env2, p2, onpath)
                                 return
                     path.calls.append(term)
